@@ -881,6 +881,64 @@ void utf8_scalars()
   }
 }
 
+// Wide strings containing code units that are NOT characters (surrogates, values beyond U+10FFFF, negative wchar_t such
+// as WEOF): "conversions never silently truncate: they return the complete result or report failure".  Model-free
+// oracle: narrow returns nothing, or a string that widens back to exactly the input.
+void utf8_invalid_wide()
+{
+  std::string e = "utf8/invalid-wide-code-units";
+  if (!vf::entry_enabled(e))
+    return;
+  vf::set_entry(e);
+  std::locale const loc{"C.utf8"};
+  bool const env = env_is_utf8();
+  std::vector<unsigned long> const bad{0xD800UL, 0xDBFFUL, 0xDC00UL, 0xDFFFUL, 0x110000UL, 0x7FFFFFFFUL, 0x80000000UL, 0x80000042UL, 0xFFFFFF41UL,
+                                       0xFFFFFFFEUL, 0xFFFFFFFFUL};
+  std::vector<std::wstring> const contexts{L"", L"a", L"abc", L"\u00e9", L"a\u20acb", std::wstring(70, L'q')};
+  std::uint64_t idx = 0;
+  for (unsigned long b : bad)
+    for (std::wstring const &pre : contexts)
+      for (std::wstring const &post : contexts)
+      {
+        if (!vf::mine(idx++))
+          continue;
+        std::wstring w = pre;
+        w += static_cast<wchar_t>(static_cast<std::int32_t>(static_cast<std::uint32_t>(b)));
+        w += post;
+        if (!vf::begin_case("code unit 0x%lX between %zu and %zu characters", b, pre.size(), post.size()))
+          continue;
+        vf::sample_case(1);
+        vf::note_distinct(vf::hash_mix(vf::hash_str(e), vf::hash_bytes(w.data(), w.size() * sizeof(wchar_t))));
+        auto const judge = [&](fcppt::optional::object<std::string> const &n, char const *fn) {
+          if (!n.has_value())
+          {
+            VF_COUNT("utf8/invalid-wide/reported-as-failure");
+            return;
+          }
+          bool same = false;
+          try
+          {
+            same = fcppt::widen_locale(n.get_unsafe(), loc) == w;
+          }
+          catch (std::runtime_error const &)
+          {
+          }
+          if (!same)
+            vf::violation(std::string("utf8/") + fn + "/invalid-code-unit-silently-converted", "mismatch",
+                          cps(w) + "-> " + hexs(n.get_unsafe()) + " (does not widen back to the input)");
+          else
+            VF_COUNT("utf8/invalid-wide/converted-and-round-trips");
+        };
+        judge(fcppt::narrow_locale(w, loc), "narrow_locale");
+        judge(fcppt::from_std_wstring_locale(w, loc), "from_std_wstring_locale");
+        if (env)
+        {
+          judge(fcppt::narrow(w), "narrow");
+          judge(fcppt::from_std_wstring(w), "from_std_wstring");
+        }
+      }
+}
+
 void utf8_random_strings()
 {
   std::string e = "utf8/random-strings";
@@ -1005,7 +1063,7 @@ void io_string_wrappers()
 
 void body()
 {
-  for (char const *b : {"io/write-read", "vector/sequences-in-one-stream", "vector/non-decimal-base-roundtrips", "io/read-from-failed-stream", "io/write-to-full-device", "text/grouping-locale/written-with-separator", "text/roundtrips", "text/char-types", "text/malformed", "enum/roundtrips", "enum/non-names",
+  for (char const *b : {"io/write-read", "vector/sequences-in-one-stream", "vector/non-decimal-base-roundtrips", "io/read-from-failed-stream", "io/write-to-full-device", "utf8/invalid-wide/reported-as-failure", "text/grouping-locale/written-with-separator", "text/roundtrips", "text/char-types", "text/malformed", "enum/roundtrips", "enum/non-names",
                         "vector/roundtrips", "vector/malformed", "utf8/strings", "utf8/scalars-singly", "utf8/narrow-growth/x4",
                         "utf8/narrow-growth/x2-3", "utf8/narrow-growth/lt-x2", "utf8/incomplete-input", "utf8/invalid-input",
                         "utf8/env-locale-strings", "io-string/roundtrips"})
@@ -1045,6 +1103,7 @@ void body()
   vector_roundtrip<3>();
   utf8_scalars();
   utf8_random_strings();
+  utf8_invalid_wide();
   io_string_wrappers();
 }
 }
